@@ -557,9 +557,6 @@ def benchmark_goals(text):
         m = re.match(r"^#test:\s*raw;\s*([^;]+);", l.strip())
         if not m:
             continue
-        g = []
-        for f in m.group(1).strip().split("*"):
-            pass
         node = _py(m.group(1).strip())
         g = _mono_of(node)
         if g is not None and g not in goals:
